@@ -334,7 +334,8 @@ pub fn autofill_rows_cell(&mut self, sheet: u32, row: i32, column: i32, anchor_r
     ensures r.is_ok() ==> final(diff_list)@.len() == old(diff_list)@.len() + 1 && (final(diff_list)@.last() matches Diff::SetCellStyle { sheet: s, row: r0, column: c, old_value, new_value }
         && s == sheet && r0 == row && c == column && *old_value == old(self).model.own_style_at(sheet, row, column)),
 {
-//@fragment base/src/user_model/autofill.rs UserModel::auto_fill_rows `let old_style = self.model.get_cell_style_or_none(sheet, row, column)?;` .. `new_value: Box::new(new_style),`
+//@fragment base/src/user_model/autofill.rs UserModel::auto_fill_rows `let old_value = saved_cse` .. `new_value: Box::new(new_style),`
+//@dropstmt `let old_value = saved_cse`
 //@rewrite* `target_value.to_string()` => `target_value.clone()`
 //@end
     Ok(())
